@@ -30,7 +30,7 @@ Theorem C01_claim_plan_recovered : forall s id i k st,
   (s_bypass st = false -> should_skip st = false -> s_mutex st = None -> s_choice st = None ->
    exists claimed planned,
      h_commits (start_if_ready s id i k st false) =
-       [[OClaims (w_claims s); OPut i claimed]; [OPut i planned; OMark id] ++ c_pushes (first_msgs i st) ++ []]
+       [[OClaims (w_claims s); OPut i claimed]; OPut i planned :: map OAdd (new_before s i st) ++ OMark id :: c_pushes (first_msgs s i st) ++ []]
      /\ s_plan_pending planned = false /\ s_ctx planned = planned_ctx s st /\ s_status planned = RUNNING).
 Proof.
   intros s id i k st E P T. split; [apply recover_plan_pending; assumption|].
@@ -47,7 +47,7 @@ Theorem C01_choice_claimant_replanned : forall s id i k st g,
   exists claimed planned,
     h_commits (start_if_ready s id i k st false) =
       [[OClaims (w_claims s); OPut i claimed]] ++ map (fun j => c_push (MCancelStage j)) (siblings_not_started s i g) ++
-      [[OPut i planned; OMark id] ++ c_pushes (first_msgs i st) ++ []]
+      [OPut i planned :: map OAdd (new_before s i st) ++ OMark id :: c_pushes (first_msgs s i st) ++ []]
     /\ s_plan_pending planned = false /\ s_ctx planned = planned_ctx s st /\ s_status planned = RUNNING
     /\ ~ In i (siblings_not_started s i g).
 Proof. exact replan_choice_claimant. Qed.
